@@ -71,7 +71,7 @@ def showRes : Res → String
 
 def step (st : St) (toks : List String) : St × List Issue :=
   match toks with
-  | ["X", key, op, vals, ctr, pod, subs, globs, "=>", valid, ev, kvv, kvok] =>
+  | ["X", key, op, vals, ctr, pod, subs, globs, "=>", valid, ev, kvv, kvok, dual] =>
     match unhex key, (if vals == "_" then some [] else (vals.splitOn ",").mapM unhex), parsePod pod, parseSubs subs, parseGlob globs, unhex kvv with
     | some key, some vals, some pod, some subs, some globs, some kvv =>
       match parseCtr ctr pod with
@@ -114,7 +114,11 @@ def step (st : St) (toks : List String) : St × List Issue :=
             if knownCls then (is ++ [⟨.property, "C19:validated-key-unresolvable-for-subject"⟩], 1)
             else (is ++ [⟨.property, s!"C19:validated-expression-fails-at-evaluation key={key}"⟩], 0)
           else (is, 0)
-        -- property: negation duality on the implementation's own results is checked through the model equality above;
+        -- property: negation duality on the implementation's own two answers (operator and its documented dual,
+        -- same key, values and subject)
+        let is := if (dual == "0" ∨ dual == "1") ∧ (ev == "0" ∨ ev == "1") ∧ dual == ev then
+            is ++ [⟨.property, s!"C19:operator-not-negation-of-its-dual op={op} both={ev}"⟩] else is
+        let is := if dual == "p" then is ++ [⟨.property, "Evaluate of the dual operator panicked"⟩] else is
         -- joint keys: value is the join of the implementation's own sub results
         let is := if ks.length > 1 then
             let vsep := (splitKeys key).2
